@@ -136,6 +136,9 @@ type World struct {
 	sinkQuit                             chan struct{}
 	sinkWG                               sync.WaitGroup
 
+	// FinisherGate (set before Start): the finisher stage is started by a thread of its own once the gate holds
+	FinisherGate func() bool
+
 	// Dyn answers URLs the static site does not know (endless families).
 	Dyn func(u string, attempt int) (Resp, bool)
 
@@ -232,7 +235,17 @@ func (w *World) Start() {
 	w.ProduceCh = make(chan *models.Item, n)
 	w.sinkWG.Add(1)
 	go w.sink()
-	must(finisher.Start(w.PostOut, w.FinishCh, w.ProduceCh))
+	if w.FinisherGate != nil {
+		// startPipeline starts the finisher last, after the source (hq.Start connects to the network): the
+		// harness decides when that moment is
+		gate := w.FinisherGate
+		go func() {
+			vsched.Block("h:the finisher is started late", nil, gate)
+			must(finisher.Start(w.PostOut, w.FinishCh, w.ProduceCh))
+		}()
+	} else {
+		must(finisher.Start(w.PostOut, w.FinishCh, w.ProduceCh))
+	}
 	w.started = true
 }
 
